@@ -133,6 +133,7 @@ def main():
     if not ck.build():
         ck.finish()
     ck.check_props()
+    ck.check_translation("pstring")
     nmax = 4 if ck.quick else 6
     cases = []
     for _ in range(400 if ck.quick else 3000):
